@@ -714,3 +714,105 @@ func streamE2E(e *Emitter, rng *rand.Rand, tier string) {
 		e.Emit("e2e " + hex.EncodeToString(raw))
 	}
 }
+
+func init() {
+	streams["passthru"] = streamPassThru
+}
+
+// streamPassThru: requests that need no conversion (the service accepts the client's protocol,
+// codec and compression) or that match no endpoint while an unknown-endpoint handler is
+// configured. Bodies, headers and responses are arbitrary: nothing may be touched.
+func streamPassThru(e *Emitter, rng *rand.Rand, tier string) {
+	n := 1200
+	if tier == "thorough" {
+		n = 30000
+	}
+	for i := 0; i < n; i++ {
+		sc := &Scenario{}
+		m := pick(rng, methods)
+		hostile := false
+		cp := clientPlan{codec: pick(rng, []string{"raw", "hexa", "rev"}), comp: pick(rng, []string{"", "", "Z", "Y", "identity"})}
+		if m.clientStr || m.serverStr {
+			cp.proto = pick(rng, []string{"grpc", "grpcweb", "connect-stream"})
+		} else {
+			cp.proto = pick(rng, []string{"grpc", "grpcweb", "connect-unary"})
+		}
+		unknown := rng.IntN(4) == 0
+		// a configuration that accepts the client's triple
+		need := map[string]string{"grpc": "grpc", "grpcweb": "grpcweb", "connect-stream": "connect", "connect-unary": "connect"}[cp.proto]
+		sc.Cfg.Protocols = subset(rng, []string{"connect", "grpc", "grpcweb"}, false)
+		sc.Cfg.Codecs = subset(rng, []string{"raw", "hexa", "rev"}, false)
+		sc.Cfg.Compress = subset(rng, []string{"Z", "Y"}, false)
+		if !contains(sc.Cfg.Protocols, need) {
+			sc.Cfg.Protocols = append(sc.Cfg.Protocols, need)
+		}
+		if !contains(sc.Cfg.Codecs, cp.codec) {
+			sc.Cfg.Codecs = append(sc.Cfg.Codecs, cp.codec)
+		}
+		if cp.comp != "" && cp.comp != "identity" && !contains(sc.Cfg.Compress, cp.comp) {
+			sc.Cfg.Compress = append(sc.Cfg.Compress, cp.comp)
+		}
+		sc.Cfg.MaxMsg = pick(rng, []uint32{8, 16, 1000})
+		sc.Cfg.MaxGetURL = 200
+		sc.Cfg.Unknown = unknown || rng.IntN(3) == 0
+		buildRequest(rng, sc, m, cp, hostile, e)
+		sc.ClientProto = "none" // raw comparison of what the client receives
+		if cp.proto == "grpc" {
+			sc.Req.ProtoMajor = 2
+		}
+		if unknown {
+			sc.Req.Path = hs(pick(rng, []string{"/verif.v1.Svc/Nope", "/other.Svc/Unary", "/", "/a/b%2Fc/d", "/verif.v1.Svc/Unary/x", "/x%20y"}))
+			sc.Req.Method = hs(pick(rng, []string{"GET", "POST", "PUT", "DELETE", "PATCH"}))
+			if rng.IntN(2) == 0 {
+				sc.Req.Query = hs(pick(rng, []string{"a=b", "connect=v2&x=%zz", "q=1&q=2", "message=%7B%7D"}))
+			}
+			e.Class("passthru:unknown-endpoint")
+		} else {
+			e.Class("passthru:" + cp.proto)
+		}
+		// arbitrary body (may be invalid in the protocol), arbitrary declared length
+		if rng.IntN(3) == 0 {
+			sc.Req.Body = splitChunks(rng, randBytes(rng, rng.IntN(40), nil))
+		}
+		total := 0
+		for _, c := range sc.Req.Body {
+			total += len(unhx(c))
+		}
+		sc.Req.ContentLength = pick(rng, []int64{-1, int64(total), int64(total), 0, int64(total) + 3})
+		for k := rng.IntN(3); k > 0; k-- {
+			h := pick(rng, appHeaderPool)
+			sc.Req.Headers = append(sc.Req.Headers, []string{hs(h[0]), hs(h[1])})
+		}
+		// arbitrary backend behaviour
+		var script [][]string
+		script = append(script, pick(rng, [][]string{{"readall", "7"}, {"readall", "1"}, {"readn", "5", "2"}, {"readall", "4096"}}))
+		// always an explicit content-type: the recorder (like net/http) would sniff one otherwise
+		script = append(script, []string{"sethdr", hs("Content-Type"), hs(pick(rng, []string{"application/grpc+raw", "application/json", "text/html", "application/connect+hexa", "x/y"}))})
+		for k := rng.IntN(4); k > 0; k-- {
+			h := pick(rng, [][2]string{{"Content-Type", "application/grpc+raw"}, {"Content-Type", "text/html"}, {"Grpc-Status", "7"},
+				{"Grpc-Message", "no%20way"}, {"X-Resp", "a"}, {"X-Resp", "b"}, {"Trailer", "X-T, Grpc-Status"}, {"Content-Encoding", "gzip"},
+				{"Content-Length", "5"}, {"Connect-Content-Encoding", "Z"}, {"Trailer-X-Foo", "v"}, {"Accept-Encoding", "br"}})
+			script = append(script, []string{pick(rng, []string{"sethdr", "addhdr"}), hs(h[0]), hs(h[1])})
+		}
+		if rng.IntN(5) != 0 {
+			script = append(script, []string{"status", fmt.Sprint(pick(rng, []int{200, 200, 200, 201, 204, 400, 404, 500, 503}))})
+		}
+		script = append(script, writeOps(rng, randBytes(rng, rng.IntN(30), nil))...)
+		for k := rng.IntN(3); k > 0; k-- {
+			h := pick(rng, [][2]string{{"X-T", "late"}, {"Grpc-Status", "0"}, {http.TrailerPrefix + "X-U", "u1"}, {http.TrailerPrefix + "Grpc-Status", "3"}})
+			script = append(script, []string{"addhdr", hs(h[0]), hs(h[1])})
+		}
+		sc.Script = script
+		raw, _ := json.Marshal(sc)
+		e.Emit("e2e " + hex.EncodeToString(raw))
+	}
+}
+
+func contains(xs []string, x string) bool {
+	for _, y := range xs {
+		if x == y {
+			return true
+		}
+	}
+	return false
+}
